@@ -56,6 +56,9 @@ func finish(repo, vdir, prop, tier string, seed int, jobs []*job, funcs map[stri
 		}
 		sort.Strings(labels)
 		perJob := 0
+		if _, skip := j.spec.Opts["nowitness"]; skip {
+			labels = nil // e.g. clock-aligned harnesses: every native run may wait up to a minute
+		}
 		for _, l := range labels {
 			if perJob >= 2 || nWit >= 48 {
 				break
